@@ -37,12 +37,17 @@
    failures of the text round trip on the library: findings C07-reserved-shell, C07-choice-delimiter).
    fetch does not skip hidden templates in a source, so the text form (which omits them) and the object
    form coincide only inside D07 - outside they differ on the real code too (finding F7a).
-   NOT proved here (decided by the correspondence stream + oracle only): "the master's own defaults as
-   first source". *)
+   "The master's own defaults as first source" (Proofs/FetchDefaultsFirst.v, C07_defaults_first): with
+   d = M.fetch(), M.fetch(sources=[d] + S) = M.fetch(sources=S) on D07, outcome for outcome.  d is not
+   master-like (under a .multiple name it holds the template copy plus the kept instances of the further
+   master occurrences), so this is a separate induction; wf_master is NOT needed (masters with further
+   occurrences of a .multiple entry are covered: C07_defaults_first_example).
+   NOT proved here (decided by the correspondence stream + oracle only): the defaults as re-parsed TEXT
+   in front of other sources (the text form above covers a single re-parsed source). *)
 From Coq Require Import List Ascii String Bool Arith ZArith.
 From Phil Require Import Base Tree Vars Choice Fetch FetchBasics FetchShape FetchDisabled FetchExamples
   FetchIdemLists FetchIdemBase FetchIdem FetchIdemCopy FetchIdemNoMult FetchIdemChoice FetchIdemExamples EntryFetch EntryIdem
-  ChoiceProofs ChoiceTop Parser Show ShowProofs TreeRoundtrip ParserShape FetchReparse FetchDomain.
+  ChoiceProofs ChoiceTop Parser Show ShowProofs TreeRoundtrip ParserShape FetchReparse FetchDomain FetchDefaultsFirst.
 Import ListNotations.
 
 (* W = M.fetch(S): fetching W again, as an object, gives W *)
@@ -255,3 +260,48 @@ Example C07_fetch_domain_example :
   fetch ex_env ex_canon false exd_master [exd_parsed] = Ok exd_again /\
   map we exd_again = map we exd_result /\ exd_again <> exd_result.
 Proof. exact fetch_domain_example. Qed.
+
+(* ---------------------------------------------------------------- the master's own defaults as first source *)
+(* d = M.fetch() (no source at all) as an extra first source changes nothing - outcome for outcome, errors
+   included.  No uniqueness of sibling names is assumed: further master occurrences of a .multiple entry
+   (whose kept instances d carries next to the template copy) are covered. *)
+Theorem C07_defaults_first : forall env canon m d srcs,
+  D07 env canon m -> srcs_have_dollar srcs = false ->
+  fetch env canon false m [] = Ok d ->
+  fetch env canon false m (d :: srcs) = fetch env canon false m srcs.
+Proof. exact defaults_first. Qed.
+Print Assumptions C07_defaults_first.
+
+(* the statement as planned, with the (superfluous) hypothesis wf_master *)
+Theorem C07_defaults_first_wf : forall env canon m d srcs,
+  D07 env canon m -> wf_master m -> srcs_have_dollar srcs = false ->
+  fetch env canon false m [] = Ok d ->
+  fetch env canon false m (d :: srcs) = fetch env canon false m srcs.
+Proof. exact defaults_first_wf. Qed.
+Print Assumptions C07_defaults_first_wf.
+
+(* the defaults alone are a fixed point *)
+Theorem C07_defaults_alone : forall env canon m d, D07 env canon m ->
+  fetch env canon false m [] = Ok d -> fetch env canon false m [d] = Ok d.
+Proof. exact defaults_alone. Qed.
+Print Assumptions C07_defaults_alone.
+
+(* masters without .multiple: for every canon *)
+Theorem C07_defaults_first_nomultiple : forall env canon m d srcs,
+  D07s m -> srcs_have_dollar srcs = false ->
+  fetch env canon false m [] = Ok d ->
+  fetch env canon false m (d :: srcs) = fetch env canon false m srcs.
+Proof. exact defaults_first_nomultiple. Qed.
+Print Assumptions C07_defaults_first_nomultiple.
+
+(* non-vacuity: a plain scope, a .multiple definition with TWO master occurrences (so the master is outside
+   wf_master), a .multiple scope; the defaults hold two objects named d (not master-like); the run with the
+   defaults in front of a source equals the run without *)
+Example C07_defaults_first_example :
+  D07 ex_env ex_canon dfx_master /\ ~ wf_master dfx_master /\ srcs_have_dollar [dfx_src] = false /\
+  fetch ex_env ex_canon false dfx_master [] = Ok dfx_defaults /\
+  List.length dfx_defaults = 5 /\ List.length (gview (s_ "d") dfx_defaults) = 2 /\
+  fetch ex_env ex_canon false dfx_master [dfx_src] = Ok dfx_result /\
+  fetch ex_env ex_canon false dfx_master [dfx_defaults; dfx_src] = Ok dfx_result /\
+  List.length dfx_result = 7 /\ dfx_result <> dfx_defaults.
+Proof. exact defaults_first_example. Qed.
